@@ -15,6 +15,8 @@ structure DSt where
                       allowSuspend := false, allowUpgrade := false }
   /-- MHD_OPTION_THREAD_POOL_SIZE as configured -/
   pool : Nat := 0
+  /-- arrivals come through the listen socket (MHD_accept_connection → internal_add_connection(external_add = false)) -/
+  listen : Bool := false
   /-- addresses seen, for the `ipc` line -/
   addrs : List Nat := []
 
@@ -80,7 +82,7 @@ def stepLine (d : DSt) (ws : List String) : DSt × List String :=
                        tpc := mode == "tpc",
                        allowSuspend := (kvNat rest "suspend").getD 0 != 0 || (kvNat rest "upgrade").getD 0 != 0,
                        allowUpgrade := (kvNat rest "upgrade").getD 0 != 0 }
-    ({ d with cfg := cfg, pool := (kvNat rest "pool").getD 0 }, ["ok", "--"])
+    ({ d with cfg := cfg, pool := (kvNat rest "pool").getD 0, listen := (kvNat rest "listen").getD 0 != 0 }, ["ok", "--"])
   | ["start"] => if d.started then (d, ["bad-op", "--"]) else
       ({ d with started := true, s := { St.init d.cfg with resps := d.s.resps } }, ["started", "--"])
   | "resp-create" :: r :: rest =>
@@ -104,18 +106,27 @@ def stepLine (d : DSt) (ws : List String) : DSt × List String :=
     match c.toNat?, a.toNat?, p.toNat? with
     | some ci, some ai, some pi =>
       if ci ≠ d.s.nextId || ci ≥ 32 || ai ≥ 250 then (d, ["bad-op", "--"]) else
-      doOp { d with addrs := insertSorted ai d.addrs } (.arrive ai (pi != 0) true) true
+      doOp { d with addrs := insertSorted ai d.addrs } (.arrive ai (pi != 0) (!d.listen)) true
     | _, _, _ => (d, ["bad-op", "--"])
-  | ["req", c, kind, r] =>
-    match c.toNat?, r.toNat? with
-    | some ci, some ri =>
+  | "req" :: c :: kind :: r :: pre =>
+    match c.toNat?, r.toNat?, pre.mapM (·.toNat?) with
+    | some ci, some ri, some pl =>
       let b? : Option Beh := match kind with
-        | "reply" => some (.reply ri false) | "replyc" => some (.reply ri true)
-        | "upgrade" => some (.reply ri false) | "suspend" => some (.suspend ri) | _ => none
+        | "reply" => some (.reply ri false pl) | "replyc" => some (.reply ri true pl)
+        | "upgrade" => some (.reply ri false pl) | "suspend" => some (.suspend ri pl)
+        | "bad" => if pl.isEmpty then some .bad else none
+        | _ => none
       match b? with
       | some b => doOp d (.req ci b) false (post := [s!"req c={ci} sent=1"])
       | none => (d, ["bad-op", "--"])
+    | _, _, _ => (d, ["bad-op", "--"])
+  | ["ext-queue", c, r] =>
+    match c.toNat?, r.toNat? with
+    | some ci, some ri => doOp d (.extQueue ci ri) false
     | _, _ => (d, ["bad-op", "--"])
+  | ["accept-fail", e] =>
+    if d.listen && ["EMFILE", "ENFILE", "ECONNABORTED", "EAGAIN", "ENOMEM", "ENOBUFS"].contains e
+    then doOp d .acceptFail true (pre := [s!"accept-failed {e}"]) else (d, ["bad-op", "--"])
   | ["cclose", c] => match c.toNat? with
     | some ci => doOp d (.clientClose ci) false (post := ["ok"])
     | none => (d, ["bad-op", "--"])
